@@ -4,11 +4,13 @@ E1 (product enumeration): every (ri, nr, nfunc) of the alphabets inside the reso
 polar clauses (all pairs of modes, all node pairs of the native polar grid), every
 (dim, mask, ri, nr, nmax) for the Cartesian rendering (every pixel).  The oracle is
 mc/refmodels/kl.py: Kolmogorov structure function from its textbook constant, equal-weight double
-average over the equal-area polar nodes, exact-rational annulus indicator, and the tolerance-free
-"value within the range of the polar function over the enclosing polar cell and its neighbours".
+average over the equal-area polar nodes (with an allowance for the discretisation error of that quadrature,
+measured per mode by refining it), exact-rational annulus indicator, and "value within the range of the polar
+function over the polar nodes surrounding the pixel, widened by a curvature allowance".
 """
 import contextlib
 import io
+import math
 import warnings
 
 import numpy
@@ -25,27 +27,47 @@ TECHNIQUE = ("bounded exhaustive enumeration of (obscuration, radial sampling, m
 RULE = ("polar cases = product(ri, nr, nfunc) restricted to the resolution limit (nr*npp/nfunc >= 8 as "
         "announced by the module, npp = 5 nr, and nfunc <= 5 nr - 2, the azimuthal Nyquist limit of the "
         "module's 5nr-point kernel); configurations inside the announced limit but beyond the Nyquist "
-        "limit are enumerated as `edge` cases: their clauses are evaluated when the basis can be built "
-        "and the outcome is only recorded when gkl_fcom runs out of azimuthal orders (IndexError); "
+        "limit are enumerated as `edge` cases: what happens there (any exception, or a basis and how far it is "
+        "from the clauses) is only recorded, never judged; "
         "constructible cases = every (ri, nr) of a dense lattice and of the alphabets: the two-function basis "
         "must be returned (reported once per (ri, nr); polar / cartesian cases of such a pair are skipped and "
         "counted); cartesian cases = product(dim, mask, ri, nr, nmax) with the same restriction for "
-        "npp = int(2 pi nr); non-trivial = nfunc >= 3 (more than the tip/tilt pair)")
+        "npp = int(2 pi nr), plus a dense scan of the output size (dim 2..79 and spot sizes up to 520 / 1030) "
+        "with three modes; variances cases = every (ri, nr, nmax) of the cartesian alphabets: the variances "
+        "returned by make_kl (default, stf given by either alias, outer scale given) against the modal "
+        "covariances of the native-grid basis; non-trivial = nfunc >= 3 (more than the tip/tilt pair)")
 ASSUMPTIONS = [
     "returned variances are for D/r0 = 1 with the structure function 2(24/5 Gamma(6/5))^(5/6) (rho/D)^(5/3); "
-    "the module's rounded constant 6.8839 differs by 3.3e-6 relative, inside the 1e-4 tolerance",
-    "the 'native polar grid' is nr equal-area radial nodes x npp = 5 nr equidistant azimuths (the module "
-    "default, which is also the sampling of its kernel); all nodes carry the same weight.  For another npp "
-    "(make_kl uses int(2 pi nr)) the discrete double average is a different quadrature of a kernel that is "
-    "not smooth at coincident points (measured deviation of the diagonal 1e-5 ... 0.25 growing with mode "
-    "order), so the diagonalisation clause is decided for npp = 5 nr only; Gram and zero-mean clauses are "
-    "decided for both samplings",
-    "resolution limit: see RULE; 'edge' configurations that raise IndexError are recorded, not judged",
+    "the constant is a convention known to 3 digits in the literature (6.88, 6.8839, 6.88388): one common "
+    "scale factor between the returned variances and the modal covariances is fitted and must be within 1e-3 of 1",
+    "the 'native polar grid' is nr equal-area radial nodes x the number of equidistant azimuths that gkl_basis "
+    "chooses when none is given (5 nr in the module); all nodes carry the same weight.  The double pupil average "
+    "of the statement is evaluated as the equal-weight double sum over those nodes.  That sum is a quadrature "
+    "of a kernel that is not smooth at coincident points; a mode's covariance is therefore only defined up to "
+    "the discretisation error of the quadrature, which the check measures per mode (3 x the change of the "
+    "modal covariance when the azimuthal sum is refined 4 times + the size of the coincident-point term) and "
+    "allows on top of the 1e-6 spread; for the module as it is (kernel = the same 5nr-point sum) the identity "
+    "holds to 4e-12 and the allowance is not used.  For npp = int(2 pi nr) (make_kl) the diagonalisation is "
+    "decided through the variances: make_kl's variances must be the modal covariances of the native-grid "
+    "basis of the same (ri, nr, nmax); Gram and zero-mean clauses are decided for both samplings and for "
+    "explicit samplings nr, 2nr+1, 5nr, 7nr that resolve every azimuthal order of the basis",
+    "resolution limit: see RULE; 'edge' configurations are recorded, not judged",
     "Cartesian rendering: x along axis 1, y along axis 0, theta = atan2(y, x), pixel centres at "
-    "(2k - dim + 1)/dim; 'within the resampling error' is the tolerance-free statement that each in-pupil "
-    "pixel lies within [min, max] of the polar function over the enclosing polar cell and its neighbours "
-    "(+-1 index radially, clipped, and azimuthally, wrapped) plus 1e-12",
-    "values outside the (ri, nr, nfunc, dim) alphabets are not covered",
+    "(2k - dim + 1)/dim; 'within the resampling error' means that each in-pupil pixel lies within [min, max] "
+    "of the polar function over the polar nodes surrounding the pixel (radial nodes q0..q0+2 where q0 is the "
+    "last node not beyond the pixel - the rendering may register the radial nodes anywhere in their ring -, "
+    "azimuthal nodes p0, p0+1 with wrap-around; one more node towards the inside at the outermost node, at "
+    "the azimuthal seam cell and at exact node angles), widened by 0.75 x the largest second difference of the "
+    "polar function over the surrounding 4x4 nodes (higher-order or analytic rendering overshoots the node "
+    "values by up to 1/4 of it) plus 1e-12",
+    "results belong to the caller (harness-wide convention, not in the statement): every call returns the "
+    "values the property demands whatever the caller did in place to arrays returned by earlier calls, and a "
+    "result still held is not changed by later calls (ownership / history cases)",
+    "calling conventions: numpy scalar types, positional arguments and the alias 'kolstf' may be rejected by "
+    "the library (recorded); when accepted the result must be that of the plain call",
+    "the layout of the basis dictionary ('np', 'radp', 'evals') is read when present; a missing field is "
+    "recorded and the clauses that need it fall back to an observable equivalent or are skipped",
+    "values outside the (ri, nr, nfunc, dim) alphabets are not covered; dim = 1 is not covered",
 ]
 ENGINES = ["E1-product-enumeration"]
 LEVEL_TEXT = ("Every obscuration ratio x radial sampling x mode count of the alphabets (inside the resolution "
@@ -53,18 +75,31 @@ LEVEL_TEXT = ("Every obscuration ratio x radial sampling x mode count of the alp
               "the complete matrix -1/2 <K_i D K_j> over all pairs of polar nodes are compared with the identity, "
               "zero and diag(returned variances); make_kl is run for every array size (odd and even), masking, "
               "obscuration, sampling and mode count and every pixel is compared with exact annulus geometry and "
-              "with the local range of the polar function.")
+              "with the local range of the polar function; the variances returned by make_kl are compared with "
+              "the modal covariances of the native-grid basis.")
 LEVEL_NOTE = ("Trusted: numpy linear algebra, the reference structure function and geometry in mc/refmodels/kl.py. "
               "Not covered: von Karman statistics (the module itself documents them as not working), values "
-              "outside the alphabets, azimuthal samplings other than 5 nr for the diagonalisation clause.")
+              "outside the alphabets, the diagonalisation clause on azimuthal samplings other than the native one "
+              "(decided through the variances instead), configurations between the announced resolution limit "
+              "and nfunc <= 5 nr - 2 (recorded only), dim = 1.")
 
 TOL_GRAM = 1e-9       # measured <= 3e-14
 TOL_MEAN = 1e-9       # measured <= 3e-15
-TOL_DIAG = 1e-4       # measured 3.3e-6 (rounding of the constant 6.8839 in the module)
-TOL_OFF = 1e-9        # relative to the largest variance; measured <= 3e-15
+TOL_SCALE = 1e-3      # common scale factor variances / modal covariances: the module's 6.8839 gives 3.3e-6, the
+#                       equally conventional 6.88 gives 5.6e-4
+TOL_SPREAD = 1e-6     # per mode, after the common factor; measured <= 4e-12
+AZ_REFINE = 4         # refinement of the azimuthal sum that measures the discretisation error
+AZ_FACTOR = 3.0       # a kernel built on a 10nr-point sum measures <= 0.95 x that change (margin > 3)
+TOL_OFF = 1e-9        # relative to the largest variance; measured <= 3e-15 (allowance as for the diagonal;
+#                       the 10nr-point kernel measures <= 0.04 x the allowance)
 TOL_EQ = 1e-10        # tip/tilt variances equal, non-increasing order (relative)
 TOL_AZ = 1e-9         # energy outside azimuthal order 1 for the first two functions
+TOL_VAR_SAME = 1e-6   # variances of make_kl / of calling variants vs those of the plain gkl_basis, relative to the
+#                       largest; measured 0 (numpy scalars: 0; float32 result arrays would give 6e-8)
+TOL_REPEAT = 1e-9     # same call twice, relative to the largest value; measured 0
 RANGE_SLACK = 1e-12
+CURV_ALLOW = 0.75     # x largest second difference of the polar function around the pixel: cubic-spline rendering
+#                       measures 0.18, exact evaluation of cos(m theta) at most 0.25; the module (bilinear) 0
 
 
 def _alph(tier):
@@ -80,11 +115,25 @@ def _alph(tier):
             "c_ri": [0.05, 0.1, 0.3, 0.6, 0.9, 0.99], "c_nr": [8, 16, 24, 40], "c_nmax": [1, 2, 3, 6, 10, 20, 40]}
 
 
+def _dim_scan(tier):
+    """output sizes of the dense scan (three modes, ri = 0.2, nr = 8) and spot sizes (dim, ri, nr, nmax)"""
+    dense = list(range(2, 80)) + [100, 127, 128, 129, 130, 255, 256, 257]
+    spots = [(65, 0.2, 16, 10), (130, 0.2, 16, 10), (257, 0.2, 40, 20), (520, 0.3, 40, 10)]
+    if tier != "quick":
+        dense += list(range(80, 127)) + [513, 1025]
+        spots += [(1030, 0.2, 40, 6)]
+    return sorted(set(dense)), spots
+
+
 def BOUNDS(tier):
     a = _alph(tier)
-    return {"polar": {"ri": a["ri"], "nr": a["nr"], "nfunc": a["nfunc"], "npp": "5*nr (module default)"},
-            "cartesian": {"dim": a["dim"], "mask": a["mask"], "ri": a["c_ri"], "nr": a["c_nr"],
+    dense, spots = _dim_scan(tier)
+    return {"polar": {"ri": a["ri"] + [1e-6, 0.999999], "nr": a["nr"], "nfunc": a["nfunc"],
+                      "npp": "native (module default 5*nr); explicit nr, 2nr+1, 5nr, 7nr for the Gram / mean clauses"},
+            "cartesian": {"dim": a["dim"], "mask": a["mask"], "ri": a["c_ri"] + [1e-6, 0.999999], "nr": a["c_nr"],
                           "nmax": a["c_nmax"], "npp": "int(2*pi*nr) (make_kl)"},
+            "dim_scan": {"dense": "2..%d and %s" % (79 if tier == "quick" else 126, [d for d in dense if d > 126]),
+                         "spot (dim, ri, nr, nmax)": spots, "largest_dim": max(max(dense), max(s[0] for s in spots))},
             "constructible_scan": {"ri": "k/%d, 0 < k < %d" % ((20, 20) if tier == "quick" else (100, 100)),
                                    "nr": [_scan(tier)[1][0], _scan(tier)[1][-1]], "nfunc": 2},
             "resolution_limit": "nr*npp/nfunc >= 8 and nfunc <= 5*nr - 2"}
@@ -106,6 +155,14 @@ def _scan(tier):
 
 
 def cases(tier):
+    seen = set()
+    for c in _all_cases(tier):
+        if c.id not in seen:            # the extra lists may name a configuration of the product lattice again
+            seen.add(c.id)
+            yield c
+
+
+def _all_cases(tier):
     a = _alph(tier)
     sri, snr = _scan(tier)
     for nr in sorted(set(snr) | set(a["nr"]) | set(a["c_nr"])):
@@ -130,6 +187,14 @@ def cases(tier):
                         yield Case("cart:dim=%d:mask=%d:ri=%g:nr=%d:nmax=%d" % (dim, mask, ri, nr, nm),
                                    {"kind": "cart", "dim": dim, "mask": mask, "ri": ri, "nr": nr, "nmax": nm},
                                    nm >= 3)
+    for ri in a["c_ri"]:
+        for nr in a["c_nr"]:
+            for nm in a["c_nmax"]:
+                if not _announced(nr, int(2 * numpy.pi * nr), nm) or not _nyquist(nr, nm) \
+                        or not _announced(nr, 5 * nr, nm):
+                    continue
+                yield Case("variances:ri=%g:nr=%d:nmax=%d" % (ri, nr, nm),
+                           {"kind": "variances", "ri": ri, "nr": nr, "nmax": nm}, nm >= 3)
     for c in _extra_cases(tier):
         yield c
 
@@ -149,9 +214,46 @@ def _extra_cases(tier):
                        {"kind": "cart", "dim": dim, "mask": bool(mask), "ri": ri, "nr": nr, "nmax": nm}, True)
     for ri, nr, nf, dim in ((0.2, 8, 6, 16), (0.3, 12, 10, 17)):
         yield Case("ownership:ri=%g:nr=%d:nf=%d" % (ri, nr, nf), {"kind": "ownership", "ri": ri, "nr": nr, "nf": nf, "dim": dim}, True)
-    for flag in ("numpy_bool", "int_one"):
+    # mask flags that are true without being `True`, and false without being `False` (which side the library
+    # takes for the latter is recorded; every other clause applies)
+    for flag in ("numpy_bool", "int_one", "numpy_false", "int_zero"):
         yield Case("cart:dim=16:mask=%s:ri=0.3:nr=16:nmax=10" % flag,
                    {"kind": "cart", "dim": 16, "mask": flag, "ri": 0.3, "nr": 16, "nmax": 10}, True)
+    # mode counts just below the resolution limit (announced limit and nfunc <= 5nr - 2)
+    for nr in (6, 7, 8):
+        top = min(5 * nr - 2, (5 * nr * nr) // 8)
+        for nf in ((top - 1, top) if tier == "quick" else range(top - 8, top + 1)):
+            for ri in (0.1, 0.6, 0.99):
+                if _announced(nr, 5 * nr, nf) and _nyquist(nr, nf):
+                    yield Case("polar:ri=%g:nr=%d:nf=%d" % (ri, nr, nf),
+                               {"kind": "polar", "ri": ri, "nr": nr, "nf": nf, "edge": False}, True)
+    # obscurations next to 0 and to 1
+    for ri in (1e-6, 0.999999):
+        yield Case("polar:ri=%g:nr=8:nf=10" % ri, {"kind": "polar", "ri": ri, "nr": 8, "nf": 10, "edge": False}, True)
+        yield Case("cart:dim=16:mask=1:ri=%g:nr=8:nmax=10" % ri,
+                   {"kind": "cart", "dim": 16, "mask": True, "ri": ri, "nr": 8, "nmax": 10}, True)
+    # azimuthal samplings chosen by the caller
+    for ri, nr, nf in ((0.3, 8, 6), (0.1, 12, 10)) if tier == "quick" else ((0.3, 8, 6), (0.1, 12, 10), (0.6, 16, 20), (0.2, 13, 6)):
+        for npp in (nr, 2 * nr + 1, 5 * nr, 7 * nr):
+            yield Case("polar:ri=%g:nr=%d:nf=%d:npp=%d" % (ri, nr, nf, npp),
+                       {"kind": "polar_npp", "ri": ri, "nr": nr, "nf": nf, "npp": npp}, True)
+    # output sizes
+    dense, spots = _dim_scan(tier)
+    for dim in dense:
+        for mask in (1, 0):
+            yield Case("cart:dim=%d:mask=%d:ri=0.2:nr=8:nmax=3" % (dim, mask),
+                       {"kind": "cart", "dim": dim, "mask": bool(mask), "ri": 0.2, "nr": 8, "nmax": 3}, True)
+    for dim, ri, nr, nm in spots:
+        yield Case("cart:dim=%d:mask=1:ri=%g:nr=%d:nmax=%d" % (dim, ri, nr, nm),
+                   {"kind": "cart", "dim": dim, "mask": True, "ri": ri, "nr": nr, "nmax": nm}, True)
+    # the way the arguments are passed
+    for ri, nr, nf, dim in ((0.3, 8, 6, 16), (0.25, 12, 10, 17)):
+        yield Case("calling:ri=%g:nr=%d:nf=%d" % (ri, nr, nf),
+                   {"kind": "calling", "ri": ri, "nr": nr, "nf": nf, "dim": dim}, True)
+    # call histories in one process: the same output size with other radial samplings, the same sampling again
+    for dim, ri, nm, nrs in ((16, 0.3, 6, (8, 16, 8, 12)), (17, 0.2, 10, (16, 8, 16))):
+        yield Case("history:dim=%d:ri=%g:nmax=%d:nr=%s" % (dim, ri, nm, "-".join(map(str, nrs))),
+                   {"kind": "history", "dim": dim, "ri": ri, "nmax": nm, "nrs": list(nrs)}, True)
 
 
 @contextlib.contextmanager
@@ -218,13 +320,30 @@ def evaluate(p):
     with _quiet():
         if p["kind"] == "constructible":
             return _constr_case(o, p["nr"], p["ris"])
+        if p["kind"] == "history":
+            return _history(o, p["dim"], p["ri"], p["nmax"], p["nrs"])
         if _skip_unconstructible(o, p["ri"], p["nr"]):
             return o
         if p["kind"] == "ownership":
             return _ownership(o, p["ri"], p["nr"], p["nf"], p["dim"])
         if p["kind"] == "polar":
             return _polar(o, p["ri"], p["nr"], p["nf"], p["edge"])
+        if p["kind"] == "polar_npp":
+            return _polar_npp(o, p["ri"], p["nr"], p["nf"], p["npp"])
+        if p["kind"] == "variances":
+            return _variances(o, p["ri"], p["nr"], p["nmax"])
+        if p["kind"] == "calling":
+            return _calling(o, p["ri"], p["nr"], p["nf"], p["dim"])
         return _cart(o, p["dim"], p["mask"], p["ri"], p["nr"], p["nmax"])
+
+
+def _field(o, basis, key):
+    """a field of the basis dictionary, or None (recorded) when the layout is another one"""
+    try:
+        return basis[key]
+    except Exception:
+        o.stat("basis_field_%s_not_claimed" % key, 1)
+        return None
 
 
 # ------------------------------------------------------------------------------ results belong to the caller
@@ -232,6 +351,29 @@ def evaluate(p):
 def _snapshot(r):
     from mc.variants import _result_arrays
     return [a.copy() for a in _result_arrays(r)]
+
+
+def _same_values(xs, ys, tol=TOL_REPEAT):
+    """two lists of arrays hold the same values up to rounding (relative to the largest value of each array)"""
+    if len(xs) != len(ys):
+        return False
+    for a, b in zip(xs, ys):
+        if a.shape != b.shape:
+            return False
+        if not a.size:
+            continue
+        if a.dtype.kind not in "fc" or b.dtype.kind not in "fc":
+            if not numpy.array_equal(a, b):
+                return False
+            continue
+        nan = numpy.isnan(a)
+        if not numpy.array_equal(nan, numpy.isnan(b)):
+            return False
+        d = numpy.where(nan, 0.0, a - b)
+        scale = float(numpy.max(numpy.abs(numpy.where(nan, 0.0, b)))) if (~nan).any() else 0.0
+        if not _maxabs(d) <= tol * max(scale, 1e-300):
+            return False
+    return True
 
 
 def _ownership(o, ri, nr, nf, dim):
@@ -247,32 +389,48 @@ def _ownership(o, ri, nr, nf, dim):
         r1 = f()
         first = _snapshot(r1)
         r2 = f()
-        same2 = all(numpy.array_equal(a, b, equal_nan=True) for a, b in zip(_snapshot(r2), first))
-        o.check("repeated_call_equal_result", same2 and len(_snapshot(r2)) == len(first), sub=name)
+        o.check("repeated_call_equal_result", _same_values(_snapshot(r2), first), sub=name)
         for a in _result_arrays(r1):
             if a.flags.writeable and a.size:
                 if a.dtype.kind in "fc":
                     a *= 755.0
                 else:
                     a[...] = 7
-        o.check("held_result_not_overwritten_by_next_call", all(numpy.array_equal(a, b, equal_nan=True) for a, b in zip(_snapshot(r2), first)), sub=name)
+        o.check("held_result_not_overwritten_by_next_call", _same_values(_snapshot(r2), first), sub=name)
         r3 = f()
-        s3 = _snapshot(r3)
-        ok = len(s3) == len(first) and all(numpy.array_equal(a, b, equal_nan=True) for a, b in zip(s3, first))
+        ok = _same_values(_snapshot(r3), first)
         o.check("result_owned_by_caller", ok, sub=name,
                 detail=None if ok else "after the caller rescaled the first result in place, the same call returns other values")
         o.stat("lib_calls", 3)
     return o
 
 
+def _history(o, dim, ri, nmax, nrs):
+    """several make_kl calls in one process, same output size, radial samplings as listed (a sampling may come
+    back): every call is judged by all the Cartesian and polar clauses, failures carry the position in the history"""
+    for k, nr in enumerate(nrs):
+        if _constructible(ri, nr) is not None:
+            o.stat("skipped_basis_not_constructible", 1)
+            continue
+        o2 = _cart(Out(), dim, True, ri, nr, nmax)
+        for f in o2.failures:
+            f["sub"] = "call=%d:nr=%d" % (k, nr) + ("" if f["sub"] is None else ":" + f["sub"])
+        o.merge(o2)
+    return o
+
+
 # ------------------------------------------------------------------------------ polar clauses
 
-def _functions(o, m, basis, nf):
-    nr, npp = basis["nr"], basis["np"]
+def _functions(o, m, basis, nf, nr, npp_given=None):
+    """(nf, nr, npp) array of the polar functions; npp is the one given to the library, else the basis' own field,
+    else whatever the first function has"""
+    npp = npp_given if npp_given is not None else _field(o, basis, "np")
     fs = []
     for i in range(nf):
         f = numpy.asarray(m.gkl_sfi(basis, i), dtype=float)
         o.stat("lib_calls", 1)
+        if npp is None and f.ndim == 2:
+            npp = f.shape[1]
         if f.shape != (nr, npp):
             o.check("polar_function_shape", False, sub="i=%d" % i, detail="shape %s" % (f.shape,))
             return None
@@ -281,11 +439,27 @@ def _functions(o, m, basis, nf):
     return numpy.array(fs)
 
 
-def _grid_and_basic_clauses(o, basis, F, ri, nr, nf):
-    """equal-area grid, Gram, zero mean, variance order: valid for every azimuthal sampling"""
-    npp = basis["np"]
-    radp = numpy.asarray(basis["radp"], dtype=float)
-    ev = numpy.asarray(basis["evals"], dtype=float)
+def _radial_nodes(o, m, basis, ri, nr):
+    radp = _field(o, basis, "radp")
+    if radp is None:
+        try:
+            radp = m.gkl_radii(ri, nr)
+        except Exception:
+            o.stat("radial_nodes_not_available_not_claimed", 1)
+            return None
+    return numpy.asarray(radp, dtype=float)
+
+
+def _grid_and_basic_clauses(o, m, basis, F, ri, nr, nf, ev=None):
+    """equal-area grid, Gram, zero mean, variance order: valid for every azimuthal sampling that resolves the
+    azimuthal orders of the basis"""
+    npp = F.shape[2]
+    radp = _radial_nodes(o, m, basis, ri, nr)
+    if ev is None:
+        ev = _field(o, basis, "evals")
+    if radp is None or ev is None:
+        return None
+    ev = numpy.asarray(ev, dtype=float)
     ok_shapes = radp.shape == (nr,) and ev.shape == (nf,)
     o.check("basis_shapes", ok_shapes, detail="radp %s evals %s" % (radp.shape, ev.shape))
     if not ok_shapes:
@@ -320,46 +494,357 @@ def _grid_and_basic_clauses(o, basis, F, ri, nr, nf):
     return K, ev, radp, npp
 
 
+def _harmonics(F):
+    """per function of F (nf, nr, npp): its dominant azimuthal harmonic m, the complex radial amplitude a with
+    F[i][q, p] = Re(a[q] exp(i m theta_p)), and whether the function IS that single resolved harmonic"""
+    nf, nr, npp = F.shape
+    H = numpy.fft.rfft(F, axis=2)
+    ms = (numpy.abs(H) ** 2).sum(axis=1).argmax(axis=1)
+    amp = numpy.zeros((nf, nr), dtype=complex)
+    pure = numpy.zeros(nf, dtype=bool)
+    for i in range(nf):
+        one = numpy.zeros_like(H[i])
+        one[:, ms[i]] = H[i][:, ms[i]]
+        rec = numpy.fft.irfft(one, n=npp, axis=1)
+        pure[i] = bool(2 * ms[i] < npp and _maxabs(rec - F[i]) <= 1e-9 * _maxabs(F[i]))
+        amp[i] = H[i][:, ms[i]] / float(npp) * (1.0 if ms[i] == 0 else 2.0)
+    return ms, amp, pure
+
+
+def _modal_covariance_azimuthal(radp, ms, amp, N):
+    """-1/2 <K_i D K_i> of single-harmonic functions with the azimuthal sum taken over N equidistant angles
+    (the radial sum stays the equal-weight sum over the nodes); N = npp reproduces the plain double sum"""
+    r = numpy.asarray(radp, dtype=float)
+    nr = r.size
+    mmax = int(ms.max())
+    C = numpy.empty((nr, nr, mmax + 1))
+    cosk = numpy.cos(numpy.arange(N) * (2.0 * math.pi / N))
+    for q in range(nr):
+        d2 = r[q] ** 2 + r[:, None] ** 2 - 2.0 * r[q] * r[:, None] * cosk[None, :]
+        D = ref.structure_function(0.5 * numpy.sqrt(numpy.maximum(d2, 0.0)))
+        C[q] = numpy.fft.rfft(D, axis=1)[:, :mmax + 1].real / float(N)
+    out = numpy.empty(ms.size)
+    for i in range(ms.size):
+        a = amp[i]
+        w = 1.0 if ms[i] == 0 else 0.5
+        out[i] = -0.5 * w * float(numpy.real(numpy.conj(a) @ C[:, :, ms[i]] @ a)) / nr ** 2
+    return out
+
+
+def _quadrature_allowance(o, F, radp, ri, dg):
+    """per mode: how far the equal-weight double sum over the native nodes is from other, equally legitimate
+    discretisations of the double pupil average (absolute).  Two terms: AZ_FACTOR x the change of the modal
+    covariance when the azimuthal sum is refined AZ_REFINE times (available for functions that are a single
+    resolved azimuthal harmonic, and only used when the same routine reproduces the plain double sum), and the
+    size of the coincident-point term (the plain sum takes D = 0 there, a cell average takes D of about a
+    quarter of the cell diagonal).  Any failure of this instrumentation leaves the allowance at zero for the
+    modes concerned (recorded) - for the module as it is the clause holds without any allowance."""
+    nf, nr, npp = F.shape
+    allow = numpy.zeros(nf)
+    try:
+        d = (1.0 - ri * ri) / nr
+        dr = numpy.sqrt(radp ** 2 + d) - radp
+        half_diag = 0.5 * numpy.hypot(dr, radp * (2.0 * math.pi / npp))
+        Dc = ref.structure_function(half_diag / 2.0)
+        allow = allow + 0.5 * (F ** 2 * Dc[None, :, None]).sum(axis=(1, 2)) / float(nr * npp) ** 2
+        ms, amp, pure = _harmonics(F)
+        same = _modal_covariance_azimuthal(radp, ms, amp, npp)
+        valid = pure & (numpy.abs(same - dg) <= 1e-9 * numpy.abs(dg))
+        fine = _modal_covariance_azimuthal(radp, ms, amp, AZ_REFINE * npp)
+        allow = allow + numpy.where(valid, AZ_FACTOR * numpy.abs(fine - dg), 0.0)
+        if not valid.all():
+            o.stat("modes_without_azimuthal_refinement_allowance", int((~valid).sum()))
+    except Exception as e:
+        o.stat("quadrature_allowance_not_available", 1)
+        o.note("quadrature_allowance_error", "%s: %s" % (type(e).__name__, e))
+    return numpy.where(numpy.isfinite(allow), allow, 0.0)
+
+
+def _judge_variances(o, clause, ev, dg, allow, sub=None, what="returned variance"):
+    """ev (returned variances) against dg (modal covariances -1/2<K_i D K_i> on the native nodes): one common
+    factor within TOL_SCALE of 1, then every mode within TOL_SPREAD plus the quadrature allowance"""
+    ev = numpy.asarray(ev, dtype=float)
+    nf = ev.size
+    den = float((ev * ev).sum())
+    s = float((dg * ev).sum()) / den if den > 0 and numpy.isfinite(den) else float("nan")
+    i0 = int(numpy.argmax(numpy.abs(dg)))
+    stol = TOL_SCALE + float(allow[i0] / abs(dg[i0]))
+    ok = bool(abs(s - 1.0) <= stol)
+    o.check(clause, ok, sub=("scale" if sub is None else sub + ":scale"), measure=abs(s - 1.0), tol=stol,
+            detail="common factor modal covariance / %s = %r" % (what, s))
+    if not ok:
+        s = 1.0
+    tol = TOL_SPREAD * numpy.abs(dg) + allow
+    err = numpy.abs(dg - s * ev)
+    err = numpy.where(numpy.isfinite(err), err, numpy.inf)
+    i = int(numpy.argmax(err / numpy.maximum(tol, 1e-300)))
+    o.check(clause, bool(numpy.all(err <= tol)), sub=sub, measure=float(err[i] / abs(dg[i])),
+            tol=float(tol[i] / abs(dg[i])), n=nf,
+            detail="-1/2<K_%d D K_%d> = %r, %s %r (common factor %r)" % (i, i, float(dg[i]), what, float(ev[i]), s))
+
+
+def _covariance_clauses(o, F, K, ev, radp, ri):
+    """diagonalisation on the native nodes"""
+    nf = K.shape[0]
+    x, y = ref.polar_nodes(radp, F.shape[2])
+    A = ref.covariance_matrix(K, x, y)
+    dg = numpy.diag(A).copy()
+    allow = _quadrature_allowance(o, F, radp, ri, dg)
+    _judge_variances(o, "covariance_diagonal_equals_variances", ev, dg, allow)
+    exact = bool(numpy.all(numpy.abs(dg - ev) <= 1e-4 * numpy.abs(ev)))
+    o.stat("diagonal_exact_on_native_nodes" if exact else "diagonal_not_exact_on_native_nodes", 1)
+    if nf >= 2:
+        scale = float(numpy.max(numpy.abs(ev)))
+        Off = numpy.abs(A - numpy.diag(dg))
+        tol = TOL_OFF * scale + numpy.maximum(allow[:, None], allow[None, :])
+        ij = numpy.unravel_index(int(numpy.argmax(Off / numpy.maximum(tol, 1e-300))), Off.shape)
+        o.check("covariance_offdiagonal_zero", bool(numpy.all(Off <= tol)), measure=float(Off[ij] / scale),
+                tol=float(tol[ij] / scale), n=nf * (nf - 1) // 2,
+                detail="-1/2<K_%d D K_%d> = %r (largest variance %r)" % (ij[0], ij[1], float(A[ij]), scale))
+
+
 def _polar(o, ri, nr, nf, edge):
     m = _klmod()
-    try:
-        basis = m.gkl_basis(ri, nr, None, nf)
-    except IndexError as e:
-        if edge:
-            # beyond the azimuthal Nyquist limit of the 5nr-point kernel: recorded, not judged
-            o.stat("edge_configs_raising_IndexError", 1)
-            o.note("edge_IndexError_example", "gkl_basis(%r, %d, None, %d): %s" % (ri, nr, nf, e))
-            return o
-        raise
-    o.stat("lib_calls", 1)
     if edge:
-        o.stat("edge_configs_constructed", 1)
-    F = _functions(o, m, basis, nf)
+        # inside the announced limit, beyond the azimuthal Nyquist limit of a 5nr-point kernel: what the library
+        # does there is recorded, never judged (the module as it is raises IndexError for some of them; a finer
+        # kernel builds modes that the native nodes cannot resolve)
+        try:
+            o2 = _polar_clauses(Out(), m, ri, nr, nf)
+            o.stat("edge_configs_constructed", 1)
+            o.stat("edge_configs_constructed_meeting_all_clauses" if not o2.failures
+                   else "edge_configs_constructed_missing_some_clause", 1)
+            o.stat("lib_calls", o2.stats.get("lib_calls", 0))
+            if o2.failures:
+                o.note("edge_deviation_example", "gkl_basis(%r, %d, None, %d): %s" % (
+                    ri, nr, nf, sorted(set(f["clause"] for f in o2.failures))))
+        except Exception as e:
+            o.stat("edge_configs_raising_%s" % type(e).__name__, 1)
+            o.note("edge_exception_example", "gkl_basis(%r, %d, None, %d): %s: %s" % (ri, nr, nf, type(e).__name__, e))
+        return o
+    return _polar_clauses(o, m, ri, nr, nf)
+
+
+def _polar_clauses(o, m, ri, nr, nf):
+    basis = m.gkl_basis(ri, nr, None, nf)
+    o.stat("lib_calls", 1)
+    F = _functions(o, m, basis, nf, nr)
     if F is None:
         return o
-    o.check("native_npp_is_5nr", basis["np"] == 5 * nr, detail="np = %r" % (basis["np"],))
-    got = _grid_and_basic_clauses(o, basis, F, ri, nr, nf)
+    if F.shape[2] != 5 * nr:
+        o.stat("native_azimuthal_sampling_not_5nr", 1)       # an internal choice: recorded, not demanded
+    got = _grid_and_basic_clauses(o, m, basis, F, ri, nr, nf)
     if got is None:
         return o
     K, ev, radp, npp = got
-    x, y = ref.polar_nodes(radp, npp)
-    A = ref.covariance_matrix(K, x, y)
-    dg = numpy.abs(numpy.diag(A) - ev) / numpy.abs(ev)
-    i = int(numpy.argmax(dg))
-    o.check("covariance_diagonal_equals_variances", float(dg.max()) <= TOL_DIAG, measure=float(dg.max()),
-            tol=TOL_DIAG, n=nf, detail="-1/2<K_%d D K_%d> = %r, returned variance %r" %
-            (i, i, float(A[i, i]), float(ev[i])))
-    if nf >= 2:
-        Off = numpy.abs(A - numpy.diag(numpy.diag(A))) / ev.max()
-        ij = numpy.unravel_index(int(numpy.argmax(Off)), Off.shape)
-        o.check("covariance_offdiagonal_zero", float(Off.max()) <= TOL_OFF, measure=float(Off.max()), tol=TOL_OFF,
-                n=nf * (nf - 1) // 2, detail="-1/2<K_%d D K_%d> = %r (largest variance %r)" %
-                (ij[0], ij[1], float(A[ij]), float(ev.max())))
+    _covariance_clauses(o, F, K, ev, radp, ri)
     o.outcome(numpy.round(ev / ev[0], 9))
     return o
 
 
+def _polar_npp(o, ri, nr, nf, npp):
+    """azimuthal sampling chosen by the caller: grid, Gram, mean and order clauses, when the sampling resolves
+    every azimuthal order of the basis (orders read from the native-grid functions of the same basis)"""
+    m = _klmod()
+    nat = m.gkl_basis(ri, nr, None, nf)
+    Fn = _functions(Out(), m, nat, nf, nr)
+    o.stat("lib_calls", 1 + nf)
+    if Fn is None:
+        o.stat("azimuthal_orders_not_available_not_claimed", 1)
+        return o
+    ms, _, pure = _harmonics(Fn)
+    if not pure.all() or npp <= 2 * int(ms.max()):
+        o.stat("sampling_does_not_resolve_the_orders_skipped", 1)
+        o.note("largest_azimuthal_order", int(ms.max()))
+        return o
+    basis = m.gkl_basis(ri, nr, npp, nf)
+    o.stat("lib_calls", 1)
+    F = _functions(o, m, basis, nf, nr, npp_given=npp)
+    if F is None:
+        return o
+    got = _grid_and_basic_clauses(o, m, basis, F, ri, nr, nf)
+    if got is not None:
+        # the variances do not depend on the azimuthal sampling of the synthesis
+        evn = _field(o, nat, "evals")
+        if evn is not None:
+            evn = numpy.asarray(evn, dtype=float)
+            o.close("variances_independent_of_azimuthal_sampling",
+                    _maxabs(got[1] - evn) / _maxabs(evn) if evn.shape == got[1].shape else float("inf"), TOL_VAR_SAME)
+        o.outcome(numpy.round(got[1] / got[1][0], 9))
+    return o
+
+
+# ------------------------------------------------------------------------------ variances returned by make_kl
+
+def _variances(o, ri, nr, nmax):
+    """the variances that make_kl returns (whatever way the Kolmogorov statistics are asked for) are the modal
+    covariances -1/2 <K_i D K_i> of the native-grid basis of the same pupil, sampling and mode count"""
+    m = _klmod()
+    basis = m.gkl_basis(ri, nr, None, nmax)
+    o.stat("lib_calls", 1)
+    F = _functions(o, m, basis, nmax, nr)
+    if F is None:
+        return o
+    radp = _radial_nodes(o, m, basis, ri, nr)
+    if radp is None or radp.shape != (nr,):
+        o.stat("variances_anchor_not_available_not_claimed", 1)
+        return o
+    K = F.reshape(nmax, -1)
+    x, y = ref.polar_nodes(radp, F.shape[2])
+    dg = numpy.diag(ref.covariance_matrix(K, x, y)).copy()
+    allow = _quadrature_allowance(o, F, radp, ri, dg)
+    dim = 8
+    variants = [("default", {}, False), ("stf=kolmogorov", {"stf": "kolmogorov"}, False),
+                ("stf=kolstf", {"stf": "kolstf"}, True), ("outerscale=3", {"outerscale": 3.0}, True),
+                ("stf=kolmogorov:outerscale=3", {"stf": "kolmogorov", "outerscale": 3.0}, True)]
+    for name, kw, may_reject in variants:
+        try:
+            out = m.make_kl(nmax, dim, ri=ri, nr=nr, **kw)
+        except Exception as e:
+            if not may_reject:
+                raise
+            # an alias / an outer scale together with Kolmogorov statistics may be refused by the library
+            o.stat("make_kl_variant_rejected_not_claimed", 1)
+            o.note("make_kl_variant_rejected", "%s: %s: %s" % (name, type(e).__name__, e))
+            continue
+        o.stat("lib_calls", 1)
+        try:
+            var = numpy.asarray(out[1], dtype=float)
+        except Exception:
+            o.check("make_kl_returns_four", False, sub=name)
+            continue
+        if not o.check("make_kl_variances_shape", var.shape == (nmax,), sub=name, detail="shape %s" % (var.shape,)):
+            continue
+        _judge_variances(o, "make_kl_variances_are_modal_covariances", var, dg, allow, sub=name,
+                         what="variance returned by make_kl")
+    o.outcome(numpy.round(dg / dg[0], 9))
+    return o
+
+
+# ------------------------------------------------------------------------------ calling conventions
+
+def _modes_equal_up_to_sign(A, B):
+    """largest deviation between two stacks of modes, each mode compared up to its sign, relative to the largest
+    value"""
+    A = numpy.asarray(A, dtype=float).reshape(len(A), -1)
+    B = numpy.asarray(B, dtype=float).reshape(len(B), -1)
+    if A.shape != B.shape:
+        return float("inf")
+    d = numpy.minimum(numpy.abs(A - B).max(axis=1), numpy.abs(A + B).max(axis=1))
+    return float(d.max()) / max(_maxabs(B), 1e-300)
+
+
+def _calling(o, ri, nr, nf, dim):
+    """numpy scalar types, positional arguments, the alias of the structure function, the default azimuthal
+    sampling given explicitly: a variant the library accepts must give the variances and modes of the plain call
+    (a variant it refuses is recorded)"""
+    m = _klmod()
+    b0 = m.gkl_basis(ri, nr, None, nf)
+    ev0 = _field(o, b0, "evals")
+    F0 = _functions(o, m, b0, nf, nr)
+    k0 = m.make_kl(nf, dim, ri=ri, nr=nr)
+    o.stat("lib_calls", 2)
+    if F0 is None:
+        return o
+    rf = float(numpy.float32(ri))
+    polar = [("numpy_scalars", lambda: m.gkl_basis(numpy.float64(ri), numpy.int64(nr), None, numpy.int32(nf)), b0),
+             ("keywords", lambda: m.gkl_basis(ri=ri, nr=nr, npp=None, nfunc=nf), b0),
+             ("stf=kolstf", lambda: m.gkl_basis(ri, nr, None, nf, "kolstf"), b0),
+             ("stf=kolmogorov", lambda: m.gkl_basis(ri, nr, None, nf, stf="kolmogorov"), b0),
+             ("npp_explicit", lambda: m.gkl_basis(ri, nr, F0.shape[2], nf), b0),
+             ("npp_numpy_int", lambda: m.gkl_basis(ri, nr, numpy.int64(F0.shape[2]), nf), b0),
+             ("float32_ri", lambda: m.gkl_basis(numpy.float32(ri), nr, None, nf), None)]
+    for name, f, want in polar:
+        try:
+            b = f()
+            Fb = _functions(Out(), m, b, nf, nr)
+        except Exception as e:
+            o.stat("calling_variant_rejected_not_claimed", 1)
+            o.note("calling_variant_rejected:" + name, "%s: %s" % (type(e).__name__, e))
+            continue
+        o.stat("lib_calls", 1)
+        if want is None:
+            # single-precision obscuration: the result for the value it holds
+            want = m.gkl_basis(rf, nr, None, nf)
+        evw, ev = _field(o, want, "evals"), _field(o, b, "evals")
+        if evw is not None and ev is not None:
+            evw, ev = numpy.asarray(evw, dtype=float), numpy.asarray(ev, dtype=float)
+            o.close("calling_variant_same_variances", _maxabs(ev - evw) / _maxabs(evw) if ev.shape == evw.shape
+                    else float("inf"), TOL_VAR_SAME, sub="gkl_basis:" + name)
+        Fw = F0 if want is b0 else _functions(Out(), m, want, nf, nr)
+        if Fw is not None:
+            o.close("calling_variant_same_modes", _modes_equal_up_to_sign(Fb, Fw) if Fb is not None else float("inf"),
+                    TOL_VAR_SAME, sub="gkl_basis:" + name)
+    cart = [("positional", lambda: m.make_kl(nf, dim, ri, nr)),
+            ("numpy_scalars", lambda: m.make_kl(numpy.int64(nf), numpy.int32(dim), ri=numpy.float64(ri), nr=numpy.int64(nr))),
+            ("stf=kolstf", lambda: m.make_kl(nf, dim, ri=ri, nr=nr, stf="kolstf")),
+            ("mask_keyword_true", lambda: m.make_kl(nf, dim, ri=ri, nr=nr, mask=True))]
+    for name, f in cart:
+        try:
+            k = f()
+        except Exception as e:
+            o.stat("calling_variant_rejected_not_claimed", 1)
+            o.note("calling_variant_rejected:make_kl:" + name, "%s: %s" % (type(e).__name__, e))
+            continue
+        o.stat("lib_calls", 1)
+        try:
+            v0, v = numpy.asarray(k0[1], dtype=float), numpy.asarray(k[1], dtype=float)
+            c0, c = numpy.asarray(k0[0], dtype=float), numpy.asarray(k[0], dtype=float)
+            p0, p = numpy.asarray(k0[2], dtype=float), numpy.asarray(k[2], dtype=float)
+        except Exception:
+            o.check("make_kl_returns_four", False, sub=name)
+            continue
+        o.close("calling_variant_same_variances", _maxabs(v - v0) / _maxabs(v0) if v.shape == v0.shape else float("inf"),
+                TOL_VAR_SAME, sub="make_kl:" + name)
+        o.close("calling_variant_same_modes", _modes_equal_up_to_sign(c, c0) if c.shape == c0.shape else float("inf"),
+                TOL_VAR_SAME, sub="make_kl:" + name)
+        o.check("calling_variant_same_pupil", p.shape == p0.shape and bool(numpy.array_equal(p, p0)), sub="make_kl:" + name)
+    if ev0 is not None:
+        o.outcome(numpy.round(numpy.asarray(ev0, dtype=float), 9))
+    return o
+
+
 # ------------------------------------------------------------------------------ Cartesian clauses
+
+def _local_window(pol, radii, r, theta):
+    """(lo, hi, curv) of the polar function pol (nr, npp) around points (r, theta), 1-d arrays.
+    [lo, hi]: range over the radial nodes q0..q0+2 (clipped; q0 = last node with radius <= r; also q0-1 when q0 is
+    the outermost node, where a rendering may clamp towards the inside) and the azimuthal nodes p0, p0+1 (wrapped;
+    also p0-1 in the seam cell before 2 pi, where a rendering may clamp instead of wrapping, and at exact node angles,
+    where rounding decides the cell).  curv: the largest |second difference| of pol, radial or azimuthal, over the
+    nodes q0-1..q0+2 x p0-1..p0+2."""
+    pol = numpy.asarray(pol, dtype=float)
+    nr, npp = pol.shape
+    q0 = numpy.searchsorted(numpy.asarray(radii, dtype=float), r, side="right") - 1
+    u = theta * npp / (2.0 * math.pi)
+    p0 = numpy.floor(u).astype(int)
+    at_node = numpy.abs(u - numpy.round(u)) < 1e-9
+    seam = p0 >= npp - 1
+    last = q0 >= nr - 1
+    every = numpy.ones(r.shape, dtype=bool)
+    lo = numpy.full(r.shape, numpy.inf)
+    hi = numpy.full(r.shape, -numpy.inf)
+    d2 = numpy.abs(numpy.roll(pol, -1, axis=1) - 2.0 * pol + numpy.roll(pol, 1, axis=1))
+    if nr >= 3:
+        d2r = numpy.empty_like(pol)
+        d2r[1:-1] = numpy.abs(pol[2:] - 2.0 * pol[1:-1] + pol[:-2])
+        d2r[0], d2r[-1] = d2r[1], d2r[-2]
+        d2 = numpy.maximum(d2, d2r)
+    curv = numpy.zeros(r.shape)
+    for dq in (-1, 0, 1, 2):
+        q = numpy.clip(q0 + dq, 0, nr - 1)
+        use_q = last if dq < 0 else every
+        for dp in (-1, 0, 1, 2):
+            pp = (p0 + dp) % npp
+            curv = numpy.maximum(curv, d2[q, pp])
+            if dp == 2:
+                continue
+            use = use_q & ((at_node | seam) if dp < 0 else every)
+            v = pol[q, pp]
+            lo = numpy.where(use, numpy.minimum(lo, v), lo)
+            hi = numpy.where(use, numpy.maximum(hi, v), hi)
+    return lo, hi, curv
+
 
 def _cart(o, dim, mask, ri, nr, nmax):
     m = _klmod()
@@ -368,6 +853,10 @@ def _cart(o, dim, mask, ri, nr, nmax):
         flag, mask = numpy.bool_(True), True
     elif mask == "int_one":
         flag, mask = 1, True
+    elif mask == "numpy_false":       # false without being the literal False: which side is taken is recorded
+        flag, mask = numpy.bool_(False), None
+    elif mask == "int_zero":
+        flag, mask = 0, None
     out = m.make_kl(nmax, dim, ri=ri, nr=nr, mask=flag)
     o.stat("lib_calls", 1)
     if not o.check("make_kl_returns_four", isinstance(out, tuple) and len(out) == 4):
@@ -389,17 +878,36 @@ def _cart(o, dim, mask, ri, nr, nmax):
             detail="first differing pixel (row, col) %s" % (tuple(int(v) for v in numpy.argwhere(bad)[0]),)
             if bad.any() else None)
     outside = (~inside) & dec
+    w = _maxabs(klc[:, outside]) if outside.any() else 0.0
     if mask:
-        w = _maxabs(klc[:, outside]) if outside.any() else 0.0
         o.check("masked_zero_outside_annulus", w == 0.0, measure=w, tol=0.0, n=nmax * int(outside.sum()))
+    elif mask is None and outside.any():
+        o.stat("falsy_mask_flag_treated_as_masked" if w == 0.0 else "falsy_mask_flag_treated_as_unmasked", 1)
     o.check("cartesian_finite", bool(numpy.isfinite(klc).all()))
-    o.close("variances_are_polar_evals", _maxabs(var - numpy.asarray(basis["evals"], dtype=float)), 0.0)
+    evb = _field(o, basis, "evals")
+    if evb is not None:
+        # the variances returned twice (on their own and inside the basis) are the same numbers
+        evb = numpy.asarray(evb, dtype=float)
+        o.close("variances_are_polar_evals",
+                _maxabs(var - evb) / max(_maxabs(var), 1e-300) if evb.shape == var.shape else float("inf"), TOL_VAR_SAME)
+    # ... and they are those of the native-grid basis of the same pupil / sampling / mode count (whose modal
+    # covariances the polar and variances cases decide): the variances do not depend on the azimuthal sampling
+    try:
+        nat = m.gkl_basis(ri, nr, None, nmax)
+        o.stat("lib_calls", 1)
+        evn = _field(o, nat, "evals")
+    except Exception:
+        o.stat("native_basis_not_available_not_claimed", 1)
+        evn = None
+    if evn is not None:
+        evn = numpy.asarray(evn, dtype=float)
+        o.close("make_kl_variances_equal_native_basis_variances",
+                _maxabs(var - evn) / max(_maxabs(evn), 1e-300) if evn.shape == var.shape else float("inf"), TOL_VAR_SAME)
     # the polar functions the rendering has to follow
-    F = _functions(o, m, basis, nmax)
+    F = _functions(o, m, basis, nmax, nr)
     if F is None:
         return o
-    npp = basis["np"]
-    got = _grid_and_basic_clauses(o, basis, F, ri, nr, nmax)
+    got = _grid_and_basic_clauses(o, m, basis, F, ri, nr, nmax, ev=var)
     if got is None:
         return o
     radp = got[2]
@@ -412,19 +920,19 @@ def _cart(o, dim, mask, ri, nr, nmax):
     first = None
     dev = 0.0
     for i in range(nmax):
-        lo, hi = ref.polar_window_range(F[i], radp, rr, tt)
+        lo, hi, curv = _local_window(F[i], radp, rr, tt)
         v = klc[i][sel]
-        exc = numpy.maximum(lo - v, v - hi)
+        exc = numpy.maximum(lo - v, v - hi) - CURV_ALLOW * curv
         k = int(numpy.argmax(exc)) if exc.size else 0
         if exc.size and exc[k] > RANGE_SLACK:
             nbad += int((exc > RANGE_SLACK).sum())
             if first is None:
                 rc = numpy.argwhere(sel)[k]
-                first = "mode %d pixel (row %d, col %d): value %r outside [%r, %r]" % (
-                    i, rc[0], rc[1], float(v[k]), float(lo[k]), float(hi[k]))
+                first = "mode %d pixel (row %d, col %d): value %r outside [%r, %r] widened by %r" % (
+                    i, rc[0], rc[1], float(v[k]), float(lo[k]), float(hi[k]), float(CURV_ALLOW * curv[k]))
         if exc.size:
             worst = max(worst, float(exc.max()))
-            dev = max(dev, float((hi - lo).max()))
+            dev = max(dev, float((hi - lo + 2 * CURV_ALLOW * curv).max()))
     o.check("pixel_within_local_range_of_polar_function", nbad == 0, measure=max(worst, 0.0), tol=RANGE_SLACK,
             n=nmax * int(sel.sum()), detail=first)
     o.note("largest_local_range_width", dev)
